@@ -623,6 +623,7 @@ func (e *Exec) resetPath(j *job) {
 	e.known = nil
 	e.panicsAre = "violation"
 	e.ufSeq = 0
+	e.jsonBlobs = nil
 }
 
 // ---------- obligations ----------
